@@ -170,7 +170,17 @@ impl<'a> fv_template::LiteralVisitor for TemplateVisitor<'a> {
             return;
         };
 
-        self.literal.push_str(text);
+        // The text is taken from the source of the literal, so any escape
+        // sequences in it still need to be evaluated
+        let text = match syn::parse_str::<syn::LitStr>(&format!("\"{text}\"")) {
+            Ok(text) => text.value(),
+            Err(e) => {
+                self.parts = Err(e);
+                return;
+            }
+        };
+
+        self.literal.push_str(&text);
 
         parts.push(quote!(emit::template::Part::text(#text)));
     }
